@@ -131,12 +131,36 @@ func main() {
 	bin := filepath.Join(work, "verif-sim")
 	findings := filepath.Join(verifDir, "known_findings.json")
 
+	// Every simulation process runs under a wall-clock watchdog: an
+	// instrumented construct the simulator does not own (a real block) must
+	// end as harness trouble (exit 2), never as a hang.
 	sim := func(out *bytes.Buffer, args ...string) int {
-		rc, err := run(work, nil, out, bin, args...)
-		if err != nil {
+		cmd := exec.Command(bin, args...)
+		cmd.Dir = work
+		if out != nil {
+			cmd.Stdout = out
+			cmd.Stderr = out
+		}
+		if err := cmd.Start(); err != nil {
 			trouble("cannot run verif-sim: %v", err)
 		}
-		return rc
+		done := make(chan error, 1)
+		go func() { done <- cmd.Wait() }()
+		select {
+		case err := <-done:
+			if ee, ok := err.(*exec.ExitError); ok {
+				return ee.ExitCode()
+			}
+			if err != nil {
+				trouble("verif-sim: %v", err)
+			}
+			return 0
+		case <-time.After(4 * time.Minute):
+			_ = cmd.Process.Kill()
+			fmt.Fprintf(os.Stderr, "check: verif-sim %v did not finish within 4 minutes (a real block outside the simulator?)\n", args)
+			exit(2)
+		}
+		return 2
 	}
 
 	if prop == "SELFTEST" {
